@@ -43,8 +43,12 @@ def main():
             sh(f"cp -a {VERIF}/harness/target {base}/verif/harness/target")     # warm build cache (same absolute paths inside)
         r = sh(f"git apply {sd}/patch.diff", cwd=f"{base}/repo")
         if r.returncode != 0:
-            print(os.path.basename(sd), "patch does not apply:", r.stdout)
-            continue
+            # an older seed, made before later fix commits touched the same file: let patch(1) place the hunks
+            r2 = sh(f"patch -p1 -F3 --no-backup-if-mismatch < {sd}/patch.diff", cwd=f"{base}/repo")
+            if r2.returncode != 0:
+                print(os.path.basename(sd), "patch does not apply:", r.stdout, r2.stdout[-300:], flush=True)
+                continue
+            print(os.path.basename(sd), "applied with patch -F3 (context moved since the seed was made)", flush=True)
         results = {}
         for c in checks:
             t0 = time.time()
